@@ -776,9 +776,29 @@ def conc_edit(rng, op, canonical=False, uid=0):
     raise AssertionError(op)
 
 
+def added_once(before, after, line):
+    """add_change: the line is present once more than before, every other change line is where it was
+    relative to the others (WHERE the new line went is not judged) -> None or a message"""
+    if len(after) != len(before) + 1:
+        return "add_change changed the number of change lines from %d to %d" % (len(before), len(after))
+    for p in range(len(after)):
+        if after[p] == line and after[:p] + after[p + 1:] == before:
+            return None
+    return "add_change(%r): the line is not present exactly once with the other change lines intact (%r -> %r)" % (line, before[-4:], after[-5:])
+
+
 def apply_edit(cl, op, arg, how=0):
-    """-> None or 'EXC:<type>' (an exception of an editing call with D3 arguments is an observation)"""
+    """-> None or 'EXC:<type>' / 'BAD:<message>' (an exception of an editing call with D3 arguments is an
+    observation)"""
     from debian.debian_support import Version
+    if op in ("AddBlank", "AddChange") and len(cl):
+        before = list(cl[0].changes())
+        try:
+            cl.add_change(arg)
+        except Exception as e:
+            return "EXC:" + type(e).__name__
+        m = added_once(before, list(cl[0].changes()), arg)
+        return ("BAD:" + m) if m else None
     try:
         if op in ("NewBlockFull", "NewBlockEmpty"):
             cl.new_block(**arg)
@@ -901,7 +921,9 @@ def apply_hist(cl, op, arg, how=0):
         if name == "NewBlockFull":
             cl.new_block(**arg)
         elif name == "AddChange":
-            cl.add_change(arg)
+            r = apply_edit(cl, "AddChange", arg)
+            if r:
+                return r, None
         else:
             b = cl[i - 1]
             if name == "BSet":
@@ -1025,7 +1047,7 @@ def run_hist(rec, c04=True):
     for k, (op, arg, how) in enumerate(zip(rec["ops"], rec["args"], rec["hows"])):
         err, t = apply_hist(cl, op, arg, how)
         if err:
-            return "call %d %s raised %s" % (k + 1, op, err[4:])
+            return ("call %d %s raised %s" % (k + 1, op, err[4:])) if err.startswith("EXC:") else err[4:]
         last = t
     if not rec["ops"] or rec["ops"][-1][0] != "Fmt":        # (a call that leaves the document as it is came after the Fmt)
         last, err = do_format(cl, rec["what"], 0)
@@ -1034,14 +1056,40 @@ def run_hist(rec, c04=True):
     if last is None:
         return "formatting failed (ChangelogCreateError) although every block is complete"
     tok = Tok(rec["lines"], rec["contents"], rec["ops"], rec["args"])
-    want = expected_text(rec["out"], tok)
     what = rec["what"]
-    want_text = join(want + (tail if what == 0 else []))
-    if last != want_text:
-        i = next((i for i in range(min(len(last), len(want_text))) if last[i] != want_text[i]), min(len(last), len(want_text)))
-        return "after %s the formatted %s is not the text of the current document: differs at offset %d: %r vs expected %r" % (
-            [o[0] + (str(o[1]) if o[1] else "") for o in rec["ops"]], "changelog" if what == 0 else "block %d" % what,
-            i, last[max(0, i - 30):i + 40], want_text[max(0, i - 30):i + 40])
+    # WHERE add_change inserts its line is not part of the statements: TLC hands out one reference per
+    # insertion position; the real object must agree with one of them (today's position first; another one
+    # is specification drift, recorded by the caller)
+    variants = rec.get("variants") or [dict(out=rec["out"], doc=rec.get("doc"), std=True)]
+    variants = sorted(variants, key=lambda v: not v["std"])
+    names = ("package", "version", "distributions", "urgency", "urgency_comment", "other_pairs", "changes", "author", "date")
+
+    def against(v):
+        want_text = join(expected_text(v["out"], tok) + (tail if what == 0 else []))
+        if last != want_text:
+            i = next((i for i in range(min(len(last), len(want_text))) if last[i] != want_text[i]), min(len(last), len(want_text)))
+            return "after %s the formatted %s is not the text of the current document: differs at offset %d: %r vs expected %r" % (
+                [o[0] + (str(o[1]) if o[1] else "") for o in rec["ops"]], "changelog" if what == 0 else "block %d" % what,
+                i, last[max(0, i - 30):i + 40], want_text[max(0, i - 30):i + 40])
+        if c04 and v.get("doc"):
+            # what the edited object exposes is what was written / assigned (TLC's current document); the
+            # version of a block whose own handed-out Version object was edited in place is not judged
+            got = fields_of(cl)[:len(v["doc"]["bl"])]
+            exp = expected_fields(v["doc"], tok)
+            for n, (g, e) in enumerate(zip(got, exp)):
+                for j, nm in enumerate(names):
+                    if nm == "version" and (n + 1) in rec.get("mut", []):
+                        continue
+                    if g[j] != e[j]:
+                        return "after %s block %d exposes %s = %r, the current document says %r" % (
+                            [o[0] + (str(o[1]) if o[1] else "") for o in rec["ops"]], n, nm, g[j], e[j])
+        return None
+    msgs = [against(v) for v in variants]
+    if all(msgs):
+        return msgs[0]
+    chosen = variants[msgs.index(None)]
+    if not chosen["std"]:
+        rec["_drift"] = "add_change put its line at another position than today's rule (history %s)" % ([o[0] for o in rec["ops"]],)
     if what == 0:
         msg = fixpoint(cl, last, rec["aea"])
         if msg:
@@ -1052,19 +1100,7 @@ def run_hist(rec, c04=True):
                 return "the formatted text: " + msg
             if fields_of(ref) != fields_of(cl):
                 return "the blocks of the edited changelog and of a fresh parse of its text expose different data"
-    if c04 and rec.get("doc"):
-        # what the edited object exposes is what was written / assigned (TLC's current document); the version
-        # of a block whose own handed-out Version object was edited in place is not judged
-        got = fields_of(cl)[:len(rec["doc"]["bl"])]
-        exp = expected_fields(rec["doc"], tok)
-        names = ("package", "version", "distributions", "urgency", "urgency_comment", "other_pairs", "changes", "author", "date")
-        for n, (g, e) in enumerate(zip(got, exp)):
-            for j, nm in enumerate(names):
-                if nm == "version" and (n + 1) in rec.get("mut", []):
-                    continue
-                if g[j] != e[j]:
-                    return "after %s block %d exposes %s = %r, the current document says %r" % (
-                        [o[0] + (str(o[1]) if o[1] else "") for o in rec["ops"]], n, nm, g[j], e[j])
+    if c04 and chosen.get("doc"):
         # a NEW parse of the original text exposes what is written there, whatever was done to objects
         # handed out before
         base = rec["base"]
@@ -1165,6 +1201,20 @@ def replay_hist_cases(ctx, rng, cases, c04, nconc, nstress, alive=None):
     to the parsed text that no call touches (the reference output is then TLC's followed by them).
     -> number replayed"""
     n = 0
+    groups = {}
+    order = []
+    for c in cases:                     # one group per history; its members differ in the add_change positions only
+        k = json_key([c["t"], [[o[0], o[1], 0 if o[0] == "AddChange" else o[2]] for o in c["ops"]], c["what"]])
+        if k not in groups:
+            groups[k] = []
+            order.append(k)
+        groups[k].append(c)
+    cases = []
+    for k in order:
+        g = groups[k]
+        c = dict(next((x for x in g if x["std"]), g[0]))
+        c["variants"] = [dict(out=x["out"], doc=x["doc"], std=x["std"]) for x in g]
+        cases.append(c)
     stress_every = max(1, len(cases) // max(1, nstress))
     for ci, c in enumerate(cases):
         variants = [("canonical", False)] + [("random", False)] * (nconc - 1)
@@ -1185,8 +1235,11 @@ def replay_hist_cases(ctx, rng, cases, c04, nconc, nstress, alive=None):
             rec = dict(kind="hist", lines=lines, contents=contents, aea=c["aea"], ops=c["ops"], args=args,
                        hows=[rng.randrange(30) for _ in c["ops"]], out=c["out"], what=c["what"], tail=tail,
                        tail_contents=tail_contents, tail_bl=tail_bl, doc=c["doc"], base=c["base"], mut=c["mut"],
-                       form=FORMS[(ci + vi) % len(FORMS)])
+                       variants=c["variants"], form=FORMS[(ci + vi) % len(FORMS)])
             msg = run_hist(rec, c04=c04)
+            if rec.pop("_drift", None):
+                ctx.drift("formatting history %s on %s: add_change inserted at another position than today's rule" % (
+                    [o[0] for o in c["ops"]], "".join(x[0] for x in c["t"])))
             ctx.case_seen(("hist", tuple(c["t"]), json_key(c["ops"])), len(c["ops"]) > 1)
             n += 1
             if msg:
